@@ -641,7 +641,9 @@ func rulePanic5(c *Ctx, r *Reporter) {
 
 func init() {
 	register(&Rule{ID: "OWN-4p", Doc: "projection never writes into its input: OWN-4 restricted to mongokit.Project/ProjectList and the projection operators", Run: func(c *Ctx, r *Reporter) {
-		ruleOwn4Filtered(c, r, func(fn string) bool { return strings.Contains(fn, "mongokit.Project") || strings.Contains(fn, "mongokit.project") }, 3)
+		ruleOwn4Filtered(c, r, func(fn string) bool {
+			return strings.Contains(fn, "mongokit.Project") || strings.Contains(fn, "mongokit.project")
+		}, 3)
 	}})
 	register(&Rule{ID: "OWN-4u", Doc: "updates are applied to clones: OWN-4 restricted to the update operators, Apply/Update/Extract and the write methods of mongokit.Collection", Run: func(c *Ctx, r *Reporter) {
 		ruleOwn4Filtered(c, r, func(fn string) bool {
